@@ -24,6 +24,7 @@ import (
 	"os"
 	"runtime"
 	"runtime/debug"
+	"runtime/pprof"
 	"sort"
 	"sync"
 	"sync/atomic"
@@ -80,7 +81,7 @@ func valueVersion(u *defs.Unit, t *defs.SVal) int {
 }
 
 // roundTrip re-encodes a successfully decoded value and decodes it again.
-func roundTrip(u *defs.Unit, c defs.Codec) (what string, pan any) {
+func roundTrip(u *defs.Unit, c defs.Codec, inLen int) (what string, pan any) {
 	defer func() {
 		if r := recover(); r != nil {
 			pan = fmt.Sprintf("%v\n%s", r, debug.Stack())
@@ -89,6 +90,13 @@ func roundTrip(u *defs.Unit, c defs.Codec) (what string, pan any) {
 	t1 := u.Tree(c)
 	ver := valueVersion(u, t1)
 	b2 := c.AppendTo(nil)
+	if len(b2) > inLen {
+		// The re-encoding is canonical (minimal varints, defaults and
+		// duplicate tags dropped), so it can never need more bytes than the
+		// decoder was given: a longer one means the decoder accepted an input
+		// that was too short for the value it returned.
+		return fmt.Sprintf("short input accepted: decoded without error from %d bytes, but the decoded value needs %d bytes on the wire (%s)", inLen, len(b2), hexCap(b2)), nil
+	}
 	c2 := u.New()
 	if err := c2.ReadFrom(b2); err != nil {
 		return fmt.Sprintf("re-decoding the re-encoded value failed: %v (re-encoded: %s)", err, hexCap(b2)), nil
@@ -125,7 +133,7 @@ func try(u *defs.Unit, inst *defs.Inst, stage string, in []byte, unsafe bool, cn
 		return
 	}
 	cn.ok++
-	what, pan := roundTrip(u, c)
+	what, pan := roundTrip(u, c, len(in))
 	cn.rt++
 	if pan != nil {
 		a := art()
@@ -332,12 +340,18 @@ func main() {
 		return
 	}
 	thorough := ev.Thorough()
+	if pf := os.Getenv("VERIF_C16_PROF"); pf != "" {
+		f, _ := os.Create(pf)
+		pprof.StartCPUProfile(f)
+		defer pprof.StopCPUProfile()
+	}
 
 	r := ev.New("C16", "exploration")
 	r.Rule("every kmsg decoder (ReadFrom and UnsafeReadFrom of every request/response through RequestForKey/ResponseForKey 0..MaxKey, every stand-alone embedded type, hand written Record and StickyMemberMetadata) at min and max version (quick) / every version (thorough) on: (a) all 65,793 byte strings of length <= 2 (thorough: all strings of length 3 for the 30 types with the fewest fields, see three_byte_rule); (b) every proper prefix of the reference encodings of the two C15 base valuations (all-default, all-populated); (c) every single-byte substitution from {00,01,7f,80,fe,ff} at every position of those encodings; (d) allocation pass, one goroutine: every byte of every length prefix (array/string/bytes length, tag count, tag size, struct marker) of those encodings replaced by 7f/fe/ff and every whole prefix replaced by a ladder of claims 0x7f, 0xff, 0xfff .. 0x7fffffff (and the negative extremes), smallest claim first; the same inputs also go through the panic and round-trip oracles. Distinct = (type, version, stage, decoder, outcome) classes; distinct structured inputs counted separately")
 	r.Assume("allocation is measured as runtime.MemStats.TotalAlloc delta around one decode while no other goroutine of the process runs harness code; a measurement above the bound is repeated three times and the minimum is used",
 		"bound: delta <= 1 KiB * len(input) + 64 KiB (DESIGN.md C16)",
 		"equality after re-encode/re-decode uses the C15 normalisation (nil == empty only where the field is not nullable at that version), floats by bit pattern",
+		"a successful decode never returns a value whose canonical encoding is longer than the input (kmsg.Request/Response.ReadFrom: 'This should return an error if too little data is input'); this is how a decoder that drops its final Complete() check shows up",
 		"decode time is not part of the property: see note_decode_time")
 
 	var mu sync.Mutex
@@ -654,6 +668,7 @@ alloc:
 	for _, m := range reg.Mismatches {
 		ev.InfraError("definitions and pkg/kmsg disagree (C15 reports this as a violation): %s", m)
 	}
+	pprof.StopCPUProfile()
 	r.Finish()
 }
 
